@@ -334,11 +334,49 @@ def build_theories(targets=None, timeout=3000):
     with contextlib.ExitStack() as stack:
         for n in names:
             stack.enter_context(_lock(n))
+        _touch_generated_with_stale_objects()
         cmd = ["timeout", str(timeout), "make", "-f", "Makefile.coq", "-j%d" % NPROC]
         if targets:
             cmd += targets
         rc, out, err = run(cmd, timeout + 30, cwd=COQ)
+        if rc == 0:
+            _record_generated_hashes()
         return rc, out + err
+
+
+def _gen_files():
+    d = os.path.join(COQ, "generated")
+    return [os.path.join(d, f) for f in sorted(os.listdir(d)) if f.endswith(".v")]
+
+
+def _sha(path):
+    return hashlib.sha256(open(path, "rb").read()).hexdigest()
+
+
+def _touch_generated_with_stale_objects():
+    """make decides by time stamps; a generated .v that was replaced by different text with an OLDER time stamp than its
+    .vo (a `git checkout` racing with a compilation did that once) would keep a .vo of other content.  The text each .vo
+    was compiled from is recorded; a generated file whose text differs from the record is touched so that make rebuilds it."""
+    rec_dir = os.path.join(BUILD, "gensha")
+    for v in _gen_files():
+        vo = v + "o"
+        rec = os.path.join(rec_dir, os.path.basename(v) + ".sha")
+        if os.path.exists(vo) and os.path.getmtime(vo) >= os.path.getmtime(v):
+            old = open(rec).read().strip() if os.path.exists(rec) else None
+            if old != _sha(v):
+                os.utime(v, None)
+
+
+def _record_generated_hashes():
+    rec_dir = os.path.join(BUILD, "gensha")
+    os.makedirs(rec_dir, exist_ok=True)
+    for v in _gen_files():
+        vo = v + "o"
+        if os.path.exists(vo) and os.path.getmtime(vo) >= os.path.getmtime(v):
+            tmp = os.path.join(rec_dir, "%s.%d.tmp" % (os.path.basename(v), os.getpid()))
+            with open(tmp, "w") as f:
+                f.write(_sha(v))
+            os.replace(tmp, os.path.join(rec_dir, os.path.basename(v) + ".sha"))
 
 
 def compile_property_file(pid, timeout=1500):
